@@ -134,6 +134,8 @@ pub enum FsKind {
     Open,
     Write,
     Read,
+    /// lseek on a tracked file (moves the position shared by every user of the fd)
+    Seek,
     Pread,
     Fdatasync,
     Fsync,
@@ -292,6 +294,35 @@ pub unsafe extern "C" fn read(fd: c_int, buf: *mut c_void, n: size_t) -> ssize_t
         }
         _ => libc::syscall(libc::SYS_read, fd, buf, n) as ssize_t,
     }
+}
+
+unsafe fn seek_like(fd: c_int, off: off64_t, whence: c_int) -> off64_t {
+    let ctl = controlled();
+    let info = if ctl.is_some() { fd_info(fd) } else { None };
+    match (ctl, info) {
+        // a pure position query does not touch shared state
+        (Some(tid), Some(inf)) if !(whence == libc::SEEK_CUR && off == 0) => {
+            let _g = Guard::enter();
+            let call = FsCall { kind: FsKind::Seek, name: inf.name, dir: inf.dir, fd, data: vec![], arg: off, len: whence as usize };
+            let _ = sched::fs_gate(tid, &call);
+            let r = libc::syscall(libc::SYS_lseek, fd, off, whence) as off64_t;
+            let e = errno();
+            sched::fs_done(tid, call, r, e);
+            set_errno(e);
+            r
+        }
+        _ => libc::syscall(libc::SYS_lseek, fd, off, whence) as off64_t,
+    }
+}
+
+#[no_mangle]
+pub unsafe extern "C" fn lseek64(fd: c_int, off: off64_t, whence: c_int) -> off64_t {
+    seek_like(fd, off, whence)
+}
+
+#[no_mangle]
+pub unsafe extern "C" fn lseek(fd: c_int, off: off64_t, whence: c_int) -> off64_t {
+    seek_like(fd, off, whence)
 }
 
 #[no_mangle]
